@@ -37,8 +37,9 @@ var targets = []target{
 	{"pkg/pieces/knight", "knight", []string{"attacks"}},
 	{"pkg/pieces/king", "king", []string{"attacks"}},
 	{"pkg/pieces/pawn", "pawn", []string{"attacks", "singlePushTargets", "doublePushTargets", "Pushes", "Isolanis", "Doubled", "Passed", "Backwards", "Supported", "Phalanx", "Opposed"}},
-	{"pkg/move", "move", []string{"Move.GetSourceSquare", "Move.GetTargetSquare", "Move.GetMoveType", "Move.GetPromitionPieceType", "Move.GetScore", "Move.SetScore"}},
-	{"pkg/search/transpositiontable", "tt", []string{"ttEntry.getNodeType", "ttEntry.getAge"}},
+	{"pkg/move", "move", []string{"Move.GetSourceSquare", "Move.GetTargetSquare", "Move.GetMoveType", "Move.GetPromitionPieceType", "Move.GetScore", "Move.SetScore",
+		"Move.SetSourceSquare", "Move.SetTargetSquare", "Move.SetMoveType", "Move.SetPromitionPieceType"}},
+	{"pkg/search/transpositiontable", "tt", []string{"ttEntry.getNodeType", "ttEntry.getAge", "ttEntry.setNodeType", "ttEntry.setAge"}},
 	{"pkg/evaluation", "evaluation", []string{"IsCheckmateValue"}},
 	{"pkg/search", "search", []string{"calculateTime"}},
 }
@@ -565,6 +566,15 @@ func (t *tr) block(b []ast.Stmt, k string, ret types.Type, ind string) string {
 		case *ast.StarExpr:
 			if id, ok := l.X.(*ast.Ident); ok {
 				name = id.Name
+			}
+		}
+		if sel, ok := x.Lhs[0].(*ast.SelectorExpr); ok && name == "" && x.Tok == token.ASSIGN {
+			// `v.f = e` on a struct held by value (or the pointer receiver, which is threaded as a value): functional record update
+			if id, ok := sel.X.(*ast.Ident); ok {
+				if _, isVar := t.info.Uses[id].(*types.Var); isVar {
+					v := lname(id.Name)
+					return fmt.Sprintf("let %s := { %s with %s := %s }\n%s", v, v, lname(sel.Sel.Name), t.expr(x.Rhs[0]), ind) + t.block(rest, k, ret, ind)
+				}
 			}
 		}
 		if name == "" {
